@@ -2,7 +2,7 @@
 import vcheck, re
 
 PID = "C01"
-MODULES = ["BeffVerif.Props.C01"]
+MODULES = ["BeffVerif.Props.C01", "BeffVerif.Props.C01Frag"]
 AUDIT = "BeffVerif/Audit/C01.lean"
 HYP = {"NoNumberKey": "D21", "IntersectionsOfObjects": "D22"}
 BITS = re.compile(r'\((\w+) "([01TF?]*)"\)')
